@@ -331,7 +331,9 @@ def check_problem(ctx, res, prob, labs, brute=True, pieces=True, comparison=Fals
                          'brute': None if bf is None else [f2b(float(bf[k])) for k in order]},
                     ]
 
-                    def cb(ans, sub=sub, x_by_label=x_by_label, order=order, idt=idt, why=why, W1=W1):
+                    bf_gap = 0.0 if bf is None else abs(sum(float(bf[k]) for k in order) - prob['budget'])
+
+                    def cb(ans, sub=sub, x_by_label=x_by_label, order=order, idt=idt, why=why, W1=W1, bf_gap=bf_gap):
                         f = ans[0]
                         if 'err' in f:
                             res.diverge('Mdcev.forecast (model) fails where the code succeeds', sub, f, x_by_label, where=W1(''))
@@ -351,7 +353,9 @@ def check_problem(ctx, res, prob, labs, brute=True, pieces=True, comparison=Fals
                                         {'kkt': k.get('kkt'), 'marginal': [b2f(b) for b in k.get('marginal', [])]}, why, where=W1(''))
                         if k.get('objective_brute') is not None:
                             oa, ob = b2f(k['objective']), b2f(k['objective_brute'])
-                            if math.isfinite(ob) and not (oa >= ob - 1e-5 * max(1.0, abs(ob))):
+                            lam_m = b2f(k['lam']) if k.get('lam') is not None else 0.0
+                            slack = 1e-6 * max(1.0, abs(ob)) + 2 * abs(lam_m if math.isfinite(lam_m) else 0.0) * bf_gap
+                            if math.isfinite(ob) and not (oa >= ob - slack):
                                 res.diverge('model objective: forecast worse than brute force', sub, oa, ob, where=W1(''))
 
                     ctx.batch.add_many(reqs, cb)
@@ -554,8 +558,8 @@ def check(ctx) -> Result:
         labs = labelings(rng, prob['n'])
         check_problem(ctx, res, prob, labs, brute=False, pieces=False)
         res.tally('known_shape_stream')
-    n_cmp = ctx.n(6, 60)
-    for i in range(ctx.n(40, 600)):
+    n_cmp = ctx.n(12, 100)
+    for i in range(ctx.n(160, 2400)):
         prob = gen_problem(rng, variant=VARIANTS[i % 4])
         labs = main_labelings(rng, prob)
         check_problem(ctx, res, prob, labs, brute=(i % 2 == 0), pieces=(i % 3 == 0), comparison=(i < n_cmp))
